@@ -5,7 +5,7 @@
    specification, for every tree, every weighted voter set and all vote sets (no bound). *)
 From Coq Require Import List NArith Permutation.
 From Grandpa Require Import Tree Votes RoundSpec RoundProofs.
-From C20 Require Import Model Proofs ProofsPossible Graph GraphCheck GraphProofs GraphInv GraphInvAppend.
+From C20 Require Import Model Proofs ProofsPossible Graph GraphCheck GraphProofs GraphInv GraphInvAppend GraphTracker GraphReach.
 Import ListNotations.
 Local Open Scope N_scope.
 
@@ -243,7 +243,8 @@ Theorem C20_graph_insert_append : forall t lbl G heads h b ins,
   let '(G', heads') := insert t lbl G heads h b in
   chain_inv t G' /\ cum_ok t G' ((h, b) :: ins) /\
   (exists e, eget h G' = Some e) /\
-  (forall p, In p ((h, b) :: ins) -> exists e, eget (fst p) G' = Some e).
+  (forall p, In p ((h, b) :: ins) -> exists e, eget (fst p) G' = Some e) /\
+  (forall y ey, eget y G = Some ey -> exists e2, eget y G' = Some e2).
 Proof. exact insert_append. Qed.
 Print Assumptions C20_graph_insert_append.
 
@@ -256,6 +257,46 @@ Theorem C20_graph_node_weight : forall t ws G ins y e eqv ph,
                         (memb (2 * v + ph)%nat eqv)).
 Proof. exact cum_ok_weight. Qed.
 Print Assumptions C20_graph_node_weight.
+
+(* ---- the vote-tracker link (C20/GraphTracker.v, GraphReach.v; UNBOUNDED) --------------------
+   tracker_ok t ph S eqv ins: the equivocation bits of the phase are the voters that equivocate in
+   the imports S, and the inserted bits of the phase are the voters' FIRST votes (what
+   voteTracker.addVote + importPrevote/importPrecommit do).  With cum_ok it makes the weight
+   context.Weight computes on ANY vote-node the specification's Votes.weight of its block -- for
+   every tree, every weighted voter set and every vote set. *)
+Theorem C20_graph_node_weight_is_spec_weight : forall t ws G ins ph S eqv y e,
+  cum_ok t G ins -> tracker_ok t ph S eqv ins -> eget y G = Some e ->
+  bits_weight ws (g_cum e) eqv ph = weight t ws S y.
+Proof. exact node_weight_is_spec_weight. Qed.
+Print Assumptions C20_graph_node_weight_is_spec_weight.
+
+(* [reach] (C20/GraphReach.v): the states of the mirror reachable from the initial round by any
+   number of imports of both phases -- first votes whose Insert takes the existing-node or the
+   append path, equivocations, duplicates and ignored votes (everything but introduceBranch).
+   In ALL of them both invariants and the tracker relation hold, hence every vote-node carries the
+   specification's weight in both phases. *)
+Theorem C20_graph_reachable_node_weights : forall t lbl ws G heads eqv S ins,
+  reach t lbl G heads eqv S ins ->
+  forall y e ph, (ph < 2)%nat -> eget y G = Some e ->
+  bits_weight ws (g_cum e) eqv ph = weight t ws (S ph) y.
+Proof. exact reach_node_weights. Qed.
+Print Assumptions C20_graph_reachable_node_weights.
+
+Theorem C20_graph_reachable_invariants : forall t lbl G heads eqv S ins,
+  reach t lbl G heads eqv S ins ->
+  chain_inv t G /\ cum_ok t G ins /\ (exists e0, eget 0%nat G = Some e0) /\
+  (forall p, In p ins -> exists e, eget (fst p) G = Some e) /\
+  (forall ph, (ph < 2)%nat -> tracker_ok t ph (S ph) eqv ins).
+Proof. exact reach_good. Qed.
+Print Assumptions C20_graph_reachable_invariants.
+
+(* non-vacuity: an append, an existing-node insert and an equivocation *)
+Example C20_graph_reach_example :
+  let t := [0; 1]%nat in
+  exists G heads eqv S ins, reach t (fun b => b) G heads eqv S ins /\
+    S 0%nat = [mkVote 0 2 0; mkVote 1 2 0; mkVote 1 1 0]%nat /\ eqv = [2%nat] /\
+    map fst G = [0; 2]%nat.
+Proof. exact reach_example. Qed.
 
 (* for all trees, weights and votes: a bitfield whose bits (merged with the equivocations) are the
    supporters of a block weighs Votes.weight of that block *)
